@@ -321,6 +321,12 @@ static void v_once(const plan_t *p)
         uint64_t x = p->cfg[CF_XTOR0 + s];
         mv[s].slot = s; holder[s] = s; mv[s].n = 0;
         mv[s].has_cons = (int)(x & 1); mv[s].has_dest = (int)(x >> 1 & 1);
+        if (p->cfg[CF_DECL] && !mv[s].has_cons && !mv[s].has_dest) {
+            /* a vector of plain elements from the initializer macro (the element type is all it takes) */
+            if (s & 1) { DECLARE_CSTL_VECTOR(d, unsigned char[es]); vec[s] = d; }
+            else vec[s] = (struct cstl_vector)CSTL_VECTOR_INITIALIZER(unsigned char[es]);
+            PROBE("from_initializer_macro");
+        } else
         cstl_vector_init_complex(&vec[s], es, mv[s].has_cons ? cons_cb : NULL, mv[s].has_dest ? dest_cb : NULL, &mv[s]);
     }
 
@@ -661,6 +667,7 @@ static void v_exec(const plan_t *p)
 
 static void v_gen(prng_t *r, int mode, plan_t *p)
 {
+    p->cfg[CF_DECL] = DECL_OF_INDEX();    /* one run in five starts from the initializer macros */
     static const int sizes[] = { 1, 2, 4, 8, 1, 2, 4, 8, 3, 5, 7, 12, 24, 64 };
     int huge = mode == 9 && prng_chance(r, 1, 300);
     int longrun = !huge && mode != 16 && prng_chance(r, 1, 12), small = !longrun && !huge && prng_chance(r, 1, 5);
